@@ -230,11 +230,9 @@ class CondHarness(Harness):
         r0 = cls.serve(ctx, cfg, _Tile(ts, size, cacheable), {})
         cc = r0.headers.get('Cache-Control') or r0.headers.get('Cache-control')
         if not (isinstance(cacheable, bool) and cacheable or (isinstance(cacheable, SymBool) and bool(cacheable))):
-            if cfg['service'] == 'wmsc':
-                # WMS-C keeps the validators of the merged image and *adds* the no-store header (two Cache-Control lines):
-                # only what the statement asks for is demanded here -- a no-store directive on the response
-                ccs = [v for k, v in r0.headers.items() if k.lower() == 'cache-control']
-                return any('no-store' in v for v in ccs) and r0.response == b'BODY'
+            # (until repo fix "WMS-C no validators for uncacheable images" the WMS-C branch of WMSServer.map set ETag, Last-Modified and a
+            # second, public Cache-control line before adding no-store, and answered 304 for an image that is not stored; WMS-C now
+            # has to meet the same obligation as the tile services)
             # tiles that must not be cached: no-store, no validators, never 304
             ok = (cc == 'no-cache, no-store') and r0.etag is None and r0.last_modified is None
             r1 = cls.serve(ctx, cfg, _Tile(ts, size, cacheable), cls.client_env(ctx, cfg, r0.etag, ts2, size2, ims))
